@@ -12,6 +12,9 @@
 #include <vector>
 #include <map>
 #include <cstdlib>
+#include <csignal>
+#include <unistd.h>
+#include <sys/time.h>
 #include "modular.h"
 #include "modular-balanced.h"
 #include "gfq.h"
@@ -19,6 +22,7 @@
 #include "givinterp.h"
 #include "givpoly1crt.h"
 #include "givpoly1padic.h"
+#include "givinterpgeom.h"
 
 using namespace Givaro;
 
@@ -33,6 +37,11 @@ struct Open : Poly1Dom<Field, Dense> {
     using Base::sqr; using Base::stdsqr; using Base::sqrrec;
     using Base::subin;
 };
+
+// the two anchor files nothing else reaches: Poly1PadicDom (givpoly1padic.h) and NewtonInterpGeom (givinterpgeom.h); only for the
+// coefficient domains they make sense for (specialisations after Runner)
+template <class Field> struct Runner;
+template <class Field> struct AnchorDispatch { static std::string run(Runner<Field>&, const std::string&, const std::vector<std::string>&) { return "UNKNOWN-VARIANT"; } };
 
 template <class Field>
 struct Runner {
@@ -433,6 +442,7 @@ struct Runner {
             else O.subin(Rr, Rr.begin() + (ssize_t)off, PP, ib, ie);
             if (!same(PP, PP0)) o << "SRCBROKEN"; else o << sp(Rr);
         }
+        else if (v.compare(0, 6, "padic.") == 0 || v == "interpgeom") o << AnchorDispatch<Field>::run(*this, v, a);
         else o << "UNKNOWN-VARIANT";
         return o.str();
     }
@@ -454,6 +464,53 @@ template <class Field> struct RunnerBox : AnyRunner {
 #define C08_FIELD_mb32
 #define C08_FIELD_gfq
 #endif
+
+// ---- Poly1PadicDom: eval (digits -> integer, Horner at p) and radix (integer -> digits)
+template <class Field>
+static std::string padic_run(Runner<Field>& r, const std::string& v, const std::vector<std::string>& a) {
+    std::ostringstream o;
+    Poly1PadicDom<Field, Dense> PA(r.F, Indeter("X"));
+    typename Runner<Field>::Poly R; R.assign(3, r.F.one);
+    if (v == "padic.eval") { typename Runner<Field>::Poly A = r.parse_poly(a.at(0)); Integer E(7); PA.eval(E, A); o << E; }
+    else if (v == "padic.eval.u64") { typename Runner<Field>::Poly A = r.parse_poly(a.at(0)); uint64_t E = 7; PA.eval(E, A); o << E; }
+    else if (v == "padic.radix") { Integer E(a.at(0).c_str()); o << r.sp(PA.radix(R, E, (int64_t)atol(a.at(1).c_str()))); }
+    else o << "UNKNOWN-VARIANT";
+    return o.str();
+}
+// ---- NewtonInterpGeom: interpolation at the geometric points 1, g, g^2, ... of a black box (here: evaluation of a polynomial)
+template <class Field>
+struct EvalBox {
+    const typename Runner<Field>::PolDom& D; const typename Runner<Field>::Poly& P;
+    EvalBox(const typename Runner<Field>::PolDom& d, const typename Runner<Field>::Poly& p) : D(d), P(p) {}
+    typename Field::Element& operator()(typename Field::Element& v, const typename Field::Element& x) const { return D.eval(v, P, x); }
+};
+template <class Field>
+static std::string geom_run(Runner<Field>& r, const std::string& v, const std::vector<std::string>& a) {
+    std::ostringstream o;
+    typename Runner<Field>::Poly P = r.parse_poly(a.at(0)), R; R.assign(2, r.F.one);
+    long n = atol(a.at(1).c_str());
+    NewtonInterpGeom<Field> NI(r.F, Indeter("X"));
+    EvalBox<Field> bb(r.D0, P);
+    NI.initialize(bb);
+    for (long i = 0; i < n; ++i) NI(bb);
+    NI.interpolator(R);
+    typename Field::Element g; r.F.generator(g);
+    o << r.se(g) << " " << r.sp(R);
+    return o.str();
+}
+#ifdef C08_FIELD_mi32
+template <> struct AnchorDispatch<Modular<int32_t> > { static std::string run(Runner<Modular<int32_t> >& r, const std::string& v, const std::vector<std::string>& a) { return v == "interpgeom" ? "UNKNOWN-VARIANT" : padic_run(r, v, a); } };
+#endif
+#ifdef C08_FIELD_mi64
+template <> struct AnchorDispatch<Modular<int64_t> > { static std::string run(Runner<Modular<int64_t> >& r, const std::string& v, const std::vector<std::string>& a) { return v == "interpgeom" ? "UNKNOWN-VARIANT" : padic_run(r, v, a); } };
+#endif
+#ifdef C08_FIELD_mI
+template <> struct AnchorDispatch<Modular<Integer> > { static std::string run(Runner<Modular<Integer> >& r, const std::string& v, const std::vector<std::string>& a) { return v == "interpgeom" ? "UNKNOWN-VARIANT" : padic_run(r, v, a); } };
+#endif
+#ifdef C08_FIELD_gfq
+template <> struct AnchorDispatch<GFqDom<int32_t> > { static std::string run(Runner<GFqDom<int32_t> >& r, const std::string& v, const std::vector<std::string>& a) { return v == "interpgeom" ? geom_run(r, v, a) : "UNKNOWN-VARIANT"; } };
+#endif
+
 static AnyRunner* make(const std::string& key, const std::string& ps) {
     Integer p(ps.c_str());
 #ifdef C08_FIELD_mi32
@@ -477,7 +534,18 @@ static AnyRunner* make(const std::string& key, const std::string& ps) {
     return 0;
 }
 
-int main() {
+// per-case CPU-time watchdog (load independent): a call that does not return within the budget (argv[1] seconds of CPU time of
+// this process, default 20) ends the process with the line CPU-BUDGET-EXCEEDED in place of the answer and exit code 97; the check
+// then re-runs that one case alone with a larger budget before it reports "does not return"
+static void on_cpu_budget(int) { const char m[] = "CPU-BUDGET-EXCEEDED\n"; ssize_t w = write(1, m, sizeof(m) - 1); (void)w; _exit(97); }
+static void arm_cpu_budget(long secs) {
+    struct itimerval it; it.it_interval.tv_sec = 0; it.it_interval.tv_usec = 0; it.it_value.tv_sec = secs; it.it_value.tv_usec = 0;
+    setitimer(ITIMER_PROF, &it, 0);
+}
+
+int main(int argc, char** argv) {
+    long budget = argc > 1 ? atol(argv[1]) : 20; if (budget <= 0) budget = 20;
+    signal(SIGPROF, on_cpu_budget);
     std::cout << "#thr " << KARA_THRESHOLD << " " << SQR_THRESHOLD << "\n";
     std::map<std::string, AnyRunner*> doms;
     std::string line;
@@ -490,8 +558,10 @@ int main() {
         std::string dk = key + ":" + ps;
         if (!doms.count(dk)) doms[dk] = make(key, ps);
         std::string r;
+        arm_cpu_budget(budget);
         if (!doms[dk]) r = "UNKNOWN-FIELD";
         else { try { r = doms[dk]->run(v, a); } catch (...) { r = "EXCEPTION"; } }
+        arm_cpu_budget(0);
         std::cout << r << std::endl;
     }
     return 0;
